@@ -16,7 +16,7 @@ PROPS = {
     "C01": {
         "title": "Every algorithm emits a sound, gap-free, index-exact edit script",
         "module": "SimilarVerif.Props.C01",
-        "suites": ["raw"],
+        "suites": ["raw", "deadline"],
         "rule": "raw: all sequence pairs up to length 4 (thorough 5) over 3 symbols x 3 algorithms, all sub-range pairs of pairs up to length 3 (thorough 4) with slice and offset lookups, plus structured random pairs (7 families); non-trivial = at least one change and one equal item; distinct by request hash",
         "theorem_status": "LCS: total and valid for every clock (full). Myers: valid if it returns, for every clock, relative to SnakeInBox (split point inside the box; Myers' theory pending). Patience: correspondence only so far. Corollaries replay/coverage for every valid stream.",
         "level_text": "Lean theorems: LCS total+valid (all inputs, ranges, clocks); Myers partial correctness relative to the explicit hypothesis SnakeInBox; replay and coverage corollaries. Exact call traces, comparison and probe counts of all three algorithms are compared with the model on exhaustive small scopes and random inputs, and an independent strict walker validates the implementation's streams.",
@@ -93,7 +93,7 @@ PROPS.update({
     "C08": {
         "title": "Hook protocol: finish once and last; a hook error aborts the diff unchanged",
         "module": "SimilarVerif.Props.C08",
-        "suites": ["stacks"],
+        "suites": ["stacks", "deadline"],
         "rule": "stacks: all pairs up to length 3 (thorough 5) over 2 symbols + random pairs x 3 algorithms x 6 adapter stacks (none, &mut, NoFinish, Replace, Compact, Compact+Replace) x hook with/without replace override x every failing call index k; non-trivial = more than 2 calls",
         "theorem_status": "full: abort-prefix theorem for every algorithm x {none, NoFinish, Replace, Compact, Compact+Replace} x every k and both replace modes; finish once and last follows from C01's validity (LCS full, Myers relative to SnakeInBox); NoFinish forwarding and default replace by definition",
         "level_text": "Lean theorem: the run against a hook failing at call k is exactly the k+1-prefix of the never-failing run, returns that error, for all inputs (simulation proof over every hook-generic model function); the correspondence exercises every k on the real code.",
